@@ -48,9 +48,13 @@ def cmd(*a):
     return '%d %s' % (len(a), ' '.join(hx(x) for x in a)) if a else '0'
 
 
+TABLE = []     # (real zstd frame or raw bytes, what zstd::decode_all makes of it): appended to every run line for the model driver
+
+
 def run_line(s, pre, cmds, table=None):
     l = 'run %s %d %s %d %s' % (s, len(pre), ' '.join('%s %s' % (hx(k), hx(v)) for k, v in pre), len(cmds), ' '.join(cmds))
     l = re.sub(' +', ' ', l).strip()
+    table = table if table is not None else TABLE
     if table:
         l += ' D %d %s' % (len(table), ' '.join('%s %s' % (hx(r), 'x' if d is None else hx(d)) for r, d in table))
     return l
@@ -212,6 +216,8 @@ def run(chk):
     for c, o in zip(pre_cases[3:], pre_out[3:]):
         raw = bytes.fromhex(c.split()[1]) if c.split()[1] != '-' else b''
         rawdec[raw] = (bytes.fromhex(o.split()[2]) if o.split()[2] != '-' else b'') if o.startswith('zdec ok') else None
+    table = [(f, v) for v, f in frames] + [(raw, d) for raw, d in rawdec.items()]
+    TABLE[:] = table
     cases = []          # (line, meta)
     for v in vals + bigs + [f for _, f in frames]:
         cases.append(('zrt ' + hx(v), {'kind': 'zrt'}))
@@ -219,7 +225,6 @@ def run(chk):
     pair_vals = vals + [f for _, f in frames] + (bigs if quick else bigs)
     cases += gen_pairs(chk, pair_vals if not quick else vals[:9] + [vals[11], vals[14], frames[0][1], bigs[0]])
     # ---- raw values (not written through the compressor): plain text, empty, real frames, magic + garbage ----
-    table = [(f, v) for v, f in frames] + [(raw, d) for raw, d in rawdec.items()]
     for s in 'dsa':
         for raw, dec in table:
             k = T + 'raw'
@@ -252,8 +257,17 @@ def run(chk):
             for rp in replies:
                 cases.append(('dr %s %s %s%s' % (s, hx(n), rp, dtab), {'kind': 'dr', 's': s, 'name': n, 'reply': rp}))
     lines = [c for c, _ in cases]
-    rc1, impl = chk.run_impl('compress', lines, jobs=8)
-    rc2, model = chk.run_model('compress', lines, jobs=8)
+    # the few cases with 64 KiB values dominate the run time: spread them over the worker processes
+    import random as _random
+    perm = list(range(len(lines)))
+    _random.Random(chk.seed).shuffle(perm)
+    shuffled = [lines[j] for j in perm]
+    rc1, impl_s = chk.run_impl('compress', shuffled, jobs=8)
+    rc2, model_s = chk.run_model('compress', shuffled, jobs=8)
+    impl, model = ['<no output>'] * len(lines), ['<no output>'] * len(lines)
+    for pos, j in enumerate(perm):
+        if pos < len(impl_s): impl[j] = impl_s[pos]
+        if pos < len(model_s): model[j] = model_s[pos]
     # ---- monitors ----
     hist = {}
     nfail = 0
